@@ -7,7 +7,9 @@ jump-time modes, 1 and 3 product dates) with nb_of_processes = 1 and, through re
 popleft with its row tag, sample boundaries) and the positions used by every sample must equal what
 the Coq model computes for the same configuration and schedule (vm_compute, coq_bad_indices).
 Oracle (implementation only): bit-for-bit equality of two seeded runs, duplicated sample values in
-the statistics, generator states that recur after having produced variates, rows popped twice.
+the statistics, generator states that recur after having produced variates, rows popped twice, and the
+uniform really compared by every coupling decision (probe standing for the probability in `u < p`)
+must be pairwise distinct over all samples, levels and passes.
 """
 import json
 import os
@@ -19,7 +21,8 @@ PROPERTY_FILE = "Properties/C08.v"
 GEN_DEPS = []
 RULE = ("one case = one engine run (standard / multilevel constant / multilevel adaptive / standard with a worker pool) on a "
         "real model; configurations: seed in {None, 0, k}, fixed-date (1 or 3 dates) and jump-time mode, exact Levy and CTMC "
-        "processes, scripted level/pass histories; non-trivial = at least 2 samples, at least one fresh draw, and (fixed-date "
+        "processes, scripted level/pass histories (incl. levels deep-copied from a level that has already simulated, both "
+        "simulating again afterwards); non-trivial = at least 2 samples, at least one fresh draw, and (fixed-date "
         "mode) at least 2 pre-drawn rows popped")
 MODELLED = ["numpy's global generator and Python's random: abstract position spaces (stream, seed id, index); statistical "
             "independence of distinct positions of MT19937 is assumed, not proved",
@@ -235,7 +238,7 @@ def run_ml(E, cfg, rng):
 
 # ----------------------------------------------------------------------------------------- Coq literals
 def sched_lit(sc):
-    return lst([f"({blit(st == 1)}, {zlit(k)})" for st, k in sc])
+    return lst([f"({blit(st == 1)}, {zlit(k)}, {blit(dec)})" for st, k, dec in sc])
 
 
 def mode_lit(cfg, dim=1):
@@ -334,6 +337,20 @@ def oracle(res, cfg, can, workers, vals, continuous):
         p = hit[0]
         f = ("F-C08-3" if (p in prepos and dup) else None) if multi else ("F-C08-2" if len(can.seeds) > 1 else None)
         viol("two samples are generated from the same variate", f, position=list(p), samples=[list(map(str, hit[1])), list(map(str, hit[2]))])
+    # the variate really compared by every coupling decision (`u < p` in coupling_state): pairwise distinct over the whole
+    # run -- all samples, levels, passes and processes (catches variates served twice out of a buffer that was copied)
+    byval = {}
+    for who, c in logs:
+        for (v, p, k) in c.uses:
+            byval.setdefault(v, []).append((who, k, c.samples[k]["lvl"] if k < len(c.samples) else None, p))
+    rep = {v: u for v, u in byval.items() if len(u) > 1}
+    if rep:
+        v = sorted(rep, key=lambda x: -len(rep[x]))[0]
+        viol("the same uniform variate is compared by more than one coupling decision", None, value=v,
+             decisions=[[who, f"sample {k}", f"level {lv}", f"position {p}"] for who, k, lv, p in rep[v]][:6],
+             uniforms_reused=len(rep), coupling_decisions=sum(len(u) for u in byval.values()),
+             across_levels=sum(1 for u in rep.values() if len({x[2] for x in u}) > 1))
+    res.bump("coupling_decisions_per_run", min(200, sum(len(u) for u in byval.values()) // 10 * 10))
     # duplicated sample values in the statistics (continuous payoffs only)
     if continuous:
         for lvl, vs in enumerate(vals):
@@ -525,6 +542,11 @@ def gen_cfgs(rng, tier):
                     verdicts = [rng.random() < 0.35 for _ in range(4)]
                     out["mlp"].append(dict(engine="mlp", prod=prod, model=model, proc=proc, n0=n0, L0=L0, Lmax=L0 + rng.choice([0, 1, 2]),
                                            seed=seed, nproc=1, T=rng.randrange(10 ** 9, 2 * 10 ** 9), ns=ns, verdicts=verdicts))
+    for prod, model, proc in (("fwd3", "hem", "inv"), ("cds", "merton", "bst1d"), ("fwd1", "hem", "bst1d")) * (3 if big else 1):
+        n0 = rng.choice([4, 5, 6])
+        out["mlp"].append(dict(engine="mlp", prod=prod, model=model, proc=proc, n0=n0, L0=2, Lmax=3, seed=rng.choice([None, 21]), nproc=1,
+                               T=rng.randrange(10 ** 9, 2 * 10 ** 9), ns=[[n0 + 3] * 3, [n0 + 5] * 3, [n0 + 5, n0 + 5, n0 + 5, 4], [n0 + 6, n0 + 6, n0 + 7, 6]],
+                               verdicts=[False, True]))
     for rep in range(6 if big else 2):
         for prod in ("fwd1", "fwd3", "cds"):
             for nproc in (2, 4):
@@ -559,18 +581,18 @@ def process_run(res, E, group, cfg, rng):
         evs, _, vals, price = run_std(E, cfg, rng)
         can = rt.canonical(evs)
         note_problems(can)
-        nt = len(can.samples) >= 2 and any(k > 0 for s in can.samples for _, k in s["sched"])
+        nt = len(can.samples) >= 2 and any(k > 0 for s in can.samples for _, k, _d in s["sched"])
         res.count(("std", str(cfg), len(can.events)), nontrivial=nt, kind=f"std/{cfg['prod']}/{cfg['proc']}")
         res.bump("seed_kind", "None" if cfg["seed"] is None else ("0" if cfg["seed"] == 0 else "k"))
         res.bump("samples_per_run", len(can.samples))
-        res.bump("fresh_draws_per_run", min(50, sum(k for s in can.samples for _, k in s["sched"]) // 5 * 5))
+        res.bump("fresh_draws_per_run", min(50, sum(k for s in can.samples for _, k, _d in s["sched"]) // 5 * 5))
         oracle(res, cfg, can, {}, vals, continuous=cfg["prod"] != "cds")
         return std_case(cfg, can)
     if group == "mlc":
         evs, _, vals, price, _ = run_ml(E, cfg, rng)
         can = rt.canonical(evs)
         note_problems(can)
-        nt = len(can.samples) >= 2 and any(k > 0 for s in can.samples for _, k in s["sched"])
+        nt = len(can.samples) >= 2 and any(k > 0 for s in can.samples for _, k, _d in s["sched"])
         res.count(("mlc", str(cfg), len(can.events)), nontrivial=nt, kind=f"mlc/{cfg['prod']}/{cfg['proc']}")
         res.bump("levels", cfg["Lmax"] + 1)
         oracle(res, cfg, can, {}, vals, continuous=False)
@@ -585,7 +607,7 @@ def process_run(res, E, group, cfg, rng):
         except ValueError as e:
             res.broke("correspondence mlp history", f"{e} config={cfg}")
             return None
-        nt = len(can.samples) >= 2 and any(k > 0 for s in can.samples for _, k in s["sched"]) and len(passes) >= 2
+        nt = len(can.samples) >= 2 and any(k > 0 for s in can.samples for _, k, _d in s["sched"]) and len(passes) >= 2
         res.count(("mlp", str(cfg), len(can.events)), nontrivial=nt, kind=f"mlp/{cfg['prod']}/{cfg['proc']}")
         res.bump("passes", len(passes))
         res.bump("levels_added", sum(1 for _, a in passes if a is not None))
